@@ -1,6 +1,7 @@
 mod bdd;
 mod core;
 mod dft;
+mod fhe;
 mod hal;
 mod ks;
 mod mul;
@@ -148,6 +149,22 @@ fn main() {
             }
             out.flush().unwrap();
             println!("ks: {} events", cases.len());
+        }
+        // fhe <descriptors.ndjson> <events.ndjson>
+        "fhe" => {
+            let cases = read_ndjson(&args[2]);
+            let mut out = BufWriter::new(std::fs::File::create(&args[3]).unwrap());
+            let mut mods = fhe::FMods::new();
+            for (idx, c0) in cases.iter().enumerate() {
+                let mut c = c0.clone();
+                if c.get("id").is_none() {
+                    c["id"] = serde_json::json!(idx + 1);
+                }
+                let ev = fhe::run_fhe(&mut mods, &c);
+                writeln!(out, "{}", serde_json::to_string(&ev).unwrap()).unwrap();
+            }
+            out.flush().unwrap();
+            println!("fhe: {} events", cases.len());
         }
         // rand <descriptors.ndjson> <events.ndjson>
         "rand" => {
